@@ -10,7 +10,7 @@ CHECKS = {
         "quick": 6000, "thorough": 240000,
         "rule": "rapid draws field values for each of the 9 codec types (every enum member, flag octets 0..255, "
                 "boundary-biased lengths 0..255 / 0..65535, 0..255 arguments) plus an exhaustive enum/flag/length sweep; "
-                "oracle = independent RFC 8907 byte-layout model in both directions. Non-trivial: >=2 variable fields "
+                "oracle = independent RFC 8907 byte-layout model in both directions. The decode direction is done twice: into a fresh value and into a target that already holds another value (every flag and field set); both must give the same result. Non-trivial: >=2 variable fields "
                 "non-empty, or >=1 argument, or a 2-octet length >=256 (header: flags/minor/seq>=253/length>=256). "
                 "Distinct = distinct JSON of (codec, value).",
         "assumptions": COMMON_ASSUME,
@@ -21,7 +21,7 @@ CHECKS = {
                 "list to a width boundary (254..257, 65534..65537, 70000, 254..300 args) or spoils it (enum out of range, non-ASCII, "
                 "priv>15, stop+watchdog); oracles: encode ok => decode(encode(v)) == v; !fits(v) by the harness' own width table => "
                 "encode errors; Validate(v) != nil => encode errors. decode-first: model-encoded values plain / with trailing bytes / "
-                "mutated / truncated / raw bytes; oracle: decode ok => encode ok and decode(encode(v)) == v. Plus a deterministic "
+                "mutated / truncated / raw bytes; oracle: decode ok => encode ok and decode(encode(v)) == v, and decoding the same bytes into a reused target (already holding another value) gives the same value. Plus a deterministic "
                 "sweep of every boundary length of every field. Non-trivial: stretched, spoiled, swept or non-plain decode input.",
         "assumptions": COMMON_ASSUME,
     },
@@ -56,7 +56,7 @@ CHECKS = {
                 "that returns at most one chunk per Read; server side: a recording handler must receive exactly the written "
                 "headers+cleartexts in order, nothing for the partial packet, connection closed, oversize refused without parking "
                 "for more input and with <64KiB allocated; client side (verif hook): successive Client.Send calls return the "
-                "packets in order and an error for the remainder. Plus: 3 packets x every single cut position x both sides. "
+                "packets in order and an error for the remainder. One server-side case in four runs the server with SetUseProxy(true) and puts an HAProxy line (NUL-terminated) before every packet. Plus: 3 packets x every single cut position x both sides. "
                 "Non-trivial: >=2 packets with a cut strictly inside a packet, or a terminal event other than EOF at a boundary.",
         "assumptions": COMMON_ASSUME + ["scripted net.Conn is a faithful connection (short reads, EOF, timeout errors as a TCP socket produces)"],
     },
@@ -65,7 +65,7 @@ CHECKS = {
         "rule": "rapid draws a request header (3 types, minor 0/1, any flag octet, any session id, odd first sequence number so that "
                 "the last request lands on 1,3,251,253,255 or uniform), a depth 1..6 of exchanges through a self-registering "
                 "continuation handler, and per step a reply body (AuthenReply incl. RESTART on the last step, AuthorReply, AcctReply, "
-                "arbitrary EncoderDecoder of 0..65536 bytes); oracle on the raw reply bytes: version/type/flag octets identical to "
+                "arbitrary EncoderDecoder of 0..65536 bytes); one step in two-and-a-half first attempts a reply that cannot be encoded (encoder error, 300-byte argument, invalid status); oracle on the raw reply bytes: version/type/flag octets identical to "
                 "the request's, same session, seq+1 (1 for RESTART), length == body bytes, body == cleartext XOR model pad iff the "
                 "request's unencrypted bit is clear, zero packets and never seq 0 for request 255. Plus every flag octet x type and "
                 "every odd sequence number deterministically. Non-trivial: flags != 0, minor 1, depth >= 2, last seq >= 253, RESTART.",
@@ -114,7 +114,7 @@ CHECKS = {
         "quick": 3000, "thorough": 120000,
         "rule": "rapid draws a history of 1..6 connections (some refused at admission by the secret provider) with up to 6 operations each, "
                 "interleaved round-robin: complete a session, start a session whose handler registers a continuation, continue and "
-                "finish it, first packet with an even number, replay of a used number, key-mismatch body, EOF mid-packet, EOF; "
+                "finish it, first packet with an even number, even number on a session that waits for a continuation, replay of a used number, key-mismatch body, EOF mid-packet, EOF; "
                 "whatever is still open is shut down by cancellation with read deadlines expiring. Oracle: the four in-flight gauges "
                 "(serve_accepted, handle_handlers, sessions_active, waitgroup_handle_routines_active) read from the default prometheus "
                 "registry are never below their pre-case value at any quiescent point and equal it after Serve has returned. "
@@ -125,7 +125,7 @@ CHECKS = {
         "quick": 1500, "thorough": 60000,
         "rule": "rapid draws a configuration (1..5 ordered scopes with distinct keys and 1..3 prefixes each from an overlapping pool: "
                 "nested v4/v6, 0.0.0.0/0, ::/0, non-canonical 10.1.2.3/8, IPv4-mapped v6 prefixes; deny/allow lists of 0..3 "
-                "prefixes; 1..5 user entries over 3 names assigned to subsets of scopes with per-entry bcrypt credentials) rendered "
+                "prefixes; 1..5 user entries over 3 names assigned to subsets of scopes, listed in configuration order or reversed, with per-entry bcrypt credentials; the prefix pool contains prefixes with equal network address and different lengths) rendered "
                 "to YAML or JSON and loaded by the reference stack, and 1..6 probe addresses (first/last address of a configured "
                 "prefix and the addresses just outside, fixed addresses, IPv4 as 4 bytes and as mapped 16 bytes). Oracle: the "
                 "harness' own admission model (own prefix bit arithmetic; deny, allow, first serving scope in order) decides "
@@ -144,7 +144,7 @@ CHECKS = {
                 "START or in CONTINUE, PAP, wrong/empty/other-user's/other-scope's password, abort at any step, every "
                 "action/type/service/minor START carrying a password, CONTINUE to a fresh session, START mid-exchange, wrong-minor "
                 "CONTINUE, extra packets, non-authentication bodies; START fields small / boundary lengths / 127-byte max-ASCII. "
-                "Oracle: independent evaluator over the model's decoding of the transcript: a clean correct login must receive exactly "
+                "Half of the cases add a later login (mostly one destined to PASS) that reuses the session id of an earlier script once that session is over, at any point of the interleaving. Oracle: independent evaluator over the model's decoding of the transcript: a clean correct login must receive exactly "
                 "GETUSER?/GETPASS/PASS (or PASS for PAP); any PASS must be justified (LOGIN by PAP@minor1 in START, or ASCII@minor0 "
                 "with a non-abort CONTINUE, carrying a non-empty password that bcrypt-verifies for a user named in the session that "
                 "exists in the connection's scope with a usable authenticator). Non-trivial: history reaches a password prompt, "
@@ -160,7 +160,7 @@ CHECKS = {
                 "requests: command requests (service=shell present/absent/other/starred, cmd=/cmd*/missing/padded, 0..4 cmd-args "
                 "incl. ';', '|', spaces, empty, trailing <cr>/<CR>, reordered, second cmd, trailing extra argument, padded with "
                 "whitespace/newline) and session requests (0..4 arguments selecting services by attribute or value, '=' and '*'), "
-                "for known and unknown users. Oracle: independent evaluator (rules in order user then groups, rule applies if '*' or "
+                "arguments carrying both separators (cmd-arg*detail=all, cisco-av-pair*shell:priv-lvl=15), for known and unknown users. Oracle: independent evaluator (rules in order user then groups, rule applies if '*' or "
                 "name==cmd and (no patterns or \\A(?:p)\\z matches the joined args with the final <cr> dropped), first applying rule "
                 "decides, default FAIL; invalid pattern reached => FAIL also accepted; sessions: exact de-duplicated value list in "
                 "configuration order, ADD/REPL by optionality, FAIL when empty; ambiguous requests accept any single reading or "
@@ -173,7 +173,7 @@ CHECKS = {
                 "group, with an unregistered accounter type, with none, in another scope, unknown): any flag octet (biased to "
                 "start/stop/watchdog/update and stop+watchdog), every method/type/service enum, priv 0..15, header seq 1/3/5, text "
                 "fields and 0..255 arguments built from %, %d, %!, %s%s%s, quotes, backslashes, <, &, NUL and other control bytes, "
-                "1 in 10 with a truncated body; plus every flag octet x seq 1/3/5 and every single ASCII byte deterministically. "
+                "1 in 10 with a truncated body; 0..4 further users get generated accounter blocks (own or via two groups; names empty/shared, types file/syslog/stderr/unknown); plus every flag octet x seq 1/3/5 and every single ASCII byte deterministically. "
                 "Oracle: SUCCESS => exactly one sink line between request and reply, stamped before the reply's Write in the shared "
                 "event log, whose text (rendered as log.Logger would) JSON-decodes to exactly the request's flags, method, priv, type, "
                 "service, user, port, rem_addr and argument list; undecodable / stop+watchdog / unknown user / no accounter => ERROR. "
@@ -186,7 +186,7 @@ CHECKS = {
                 "sessions: ASCII/PAP logins, wrong passwords, aborts, every action/type/service/minor START, misplaced packets) with "
                 "the connection's shared secret replaced by a unique 19-character token and every presented password (PAP START data "
                 "of any action/minor/service; ASCII CONTINUE answering GETPASS) either a pool password of >=8 characters or a unique "
-                "token; a recording logger captures every Infof/Errorf/Debugf (rendered), Record (map + obscure list) and Set (fields "
+                "token (one unique token in four carries non-ASCII bytes); a recording logger captures every Infof/Errorf/Debugf (rendered), Record (map + obscure list) and Set (fields "
                 "selected by key; Set really retains them in the context so later records show them). Oracle: no token occurs in a "
                 "rendered message, in a record key or value outside the keys that call obscures, or among the fields selected for "
                 "retention. Non-trivial: a password was presented and the history took a failure, error, abort or "
@@ -195,7 +195,7 @@ CHECKS = {
     },
     "C16": {
         "quick": 2000, "thorough": 80000,
-        "rule": "rapid draws a sequence of 2..6 documents for one loader instance (YAML or JSON): a generated two-scope configuration and "
+        "rule": "rapid draws a sequence of 2..6 documents for one loader instance (YAML or JSON; fed through Unmarshal, or - two cases in three - written to the same file and loaded with Load(path) as the file watcher does): a generated two-scope configuration and "
                 "successors derived by dropping prefix_deny/prefix_allow, shrinking or reordering the user and secret lists, "
                 "stripping a user's commands/services/groups/authenticator/accounter or nested match/set_values, shrinking scopes, "
                 "replacing option maps, adding filters, changing values; interleaved with documents that fail to parse, have no "
@@ -215,7 +215,7 @@ CHECKS = {
                 "ASCII login with a 256..65520-byte user name, command and session authorization, accounting with good and bad "
                 "flags, known and unknown users, a well-formed body of another packet type under each header type, truncated/"
                 "corrupted/padded bodies, even/replayed/jumping/restarting sequence numbers, sequence 255, invalid version/type "
-                "octets, oversize length, wrong-key bodies; flags 0/4/1. A wrapping SecretProvider records handler invocations, "
+                "octets, oversize length, wrong-key bodies; user names also UTF-8 / high-byte, port/rem_addr/arguments with control and high bytes; flags 0/4/1. A wrapping SecretProvider records handler invocations, "
                 "Reply/Write/Next calls. Oracle after every request (server quiescent or connection closed): acceptable request "
                 "(valid header, odd sequence number greater than the session's last, body not a key-mismatch by the model's rule) => "
                 "exactly one handler invocation and exactly one packet (none iff sequence 255), connection open; rejected request => "
@@ -245,7 +245,7 @@ CHECKS = {
                 "value/group entries; YAML or JSON) and 1..4 hostile connections of 1..8 chunks each: packets of authentication "
                 "scripts in every handler state (with follow-ups), authorizations incl. degenerate arguments, accounting with any "
                 "flag octet, well-formed bodies of other packet types, each optionally with 1..3 mutated cleartext octets, cut "
-                "short, or with mutated header octets; random garbage; headers announcing 0..2^32-1 bytes with short tails; ending "
+                "short, or with mutated header octets; requests against a user with a generated C11-style policy (invalid patterns included), often sent twice; random garbage; headers announcing 0..2^32-1 bytes with short tails; one case in four in HAProxy mode with well-formed and hostile proxy lines; ending "
                 "in EOF or silence. Oracle: no handler panics (a wrapping handler records and recovers them; a panic outside a "
                 "handler kills the test process, which the driver reports with the journalled case), and before/after every hostile "
                 "connection a fresh control connection completes a known-good PAP login with PASS. Thorough adds native "
@@ -256,7 +256,7 @@ CHECKS = {
     "C15": {
         "quick": 400, "thorough": 8000, "race": True, "shards_thorough": 12, "timeout_quick": 1500,
         "rule": "rapid draws a concurrent workload run with real goroutines against the whole reference server built with -race: 2..8 "
-                "clients (each its own net.Pipe connection; scripts of PAP and ASCII logins, command authorizations of the same "
+                "clients (each its own net.Pipe connection; scripts of PAP and ASCII logins, PAP logins of a keychain-path user (no hash option) by at least two clients, command authorizations of the same "
                 "user, session authorizations, accounting; optional multiplexing of two sessions; 0..2 extra connections opened and "
                 "dropped), 1..4 reloads between two configurations A and B pushed while the clients run (YAML or JSON), 20..200 "
                 "lookups of one address concurrent with the reloads, cancellation after or during the workload. The harness shares "
